@@ -34,14 +34,14 @@ def baseline_ok(tree):
     r = sh('cd %s && /venv/bin/python -m pytest -q -p no:cacheprovider --timeout=900 --continue-on-collection-errors %s 2>&1 | tail -3' % (tree, BASE_TESTS))
     base = json.load(open('/root/.vp/BASELINE.json'))
     # full comparison through junit
-    r2 = sh('cd %s && /venv/bin/python -m pytest -q -p no:cacheprovider --timeout=900 --continue-on-collection-errors --junitxml=/tmp/_seed_junit.xml %s >/dev/null 2>&1' % (tree, BASE_TESTS))
+    r2 = sh('cd %s && /venv/bin/python -m pytest -q -p no:cacheprovider --timeout=900 --continue-on-collection-errors --junitxml=/tmp/_seed_junit_%d.xml %s >/dev/null 2>&1' % (tree, os.getpid(), BASE_TESTS))
     import xml.etree.ElementTree as ET
     ok = set()
-    for tc in ET.parse('/tmp/_seed_junit.xml').iter('testcase'):
+    for tc in ET.parse('/tmp/_seed_junit_%d.xml' % os.getpid()).iter('testcase'):
         if not list(tc):
             ok.add(tc.get('classname') + '::' + tc.get('name'))
     missing = [s for s in base['stable_pass'] if s not in ok]
-    os.remove('/tmp/_seed_junit.xml')
+    os.remove('/tmp/_seed_junit_%d.xml' % os.getpid())
     return not missing, missing[:5]
 
 
